@@ -518,9 +518,14 @@ class Logix( Message_Router ):
             result	       += USINT.produce(	data.service )
             result	       += EPATH.produce(	data.path )
             result	       += UINT.produce(		data.write_tag.type )
+            payload		= typed_data.produce(	data.write_tag )
+            if data.write_tag.type == STRUCT.tag_type:
+                # the UINT structure handle precedes the element count (see __write_tag)
+                result	       += payload[:2]
+                payload		= payload[2:]
             result	       += UINT.produce(		data.write_tag.setdefault( 
                 'elements', len( data.write_tag.data )))
-            result	       += typed_data.produce(	data.write_tag )
+            result	       += payload
         elif ( data.get( 'service') == cls.WR_FRG_REQ
                or 'write_frag' in data and data.setdefault( 'service', cls.WR_FRG_REQ ) == cls.WR_FRG_REQ ):
             # We can NOT deduce the number of elements from len( write_frag.data );
@@ -530,10 +535,14 @@ class Logix( Message_Router ):
             result	       += USINT.produce(	data.service )
             result	       += EPATH.produce(	data.path )
             result	       += UINT.produce(		data.write_frag.type )
+            payload		= typed_data.produce(	data.write_frag )
+            if data.write_frag.type == STRUCT.tag_type:
+                result	       += payload[:2]
+                payload		= payload[2:]
             result	       += UINT.produce(		data.write_frag.elements )
             result	       += UDINT.produce(	data.write_frag.setdefault(
                 'offset', 0x00000000 ))
-            result	       += typed_data.produce(	data.write_frag )
+            result	       += payload
         elif ( data.get( 'service' ) == cls.WR_TAG_RPY
                or data.get( 'service' ) == cls.WR_FRG_RPY ):
             result	       += USINT.produce(	data.service )
